@@ -273,6 +273,9 @@ def replay_history(rng, tier, rtcp=False, n_ssrc=None, steps=None, common_roc=No
     if common_roc is not None:
         # sender and receiver are told the same starting ROC (srtp_stream_set_roc on both sides) before any traffic
         for s in ssrcs:
+            if common_roc == 0 or rng.random() < 0.3:
+                # a first request that no packet takes up; the second call replaces it (also when it names the current ROC)
+                L += [f"setroc 1 {H(s)} {H(common_roc + 3)}", f"setroc 2 {H(s)} {H(common_roc + 3)}"]
             L += [f"setroc 1 {H(s)} {H(common_roc)}", f"setroc 2 {H(s)} {H(common_roc)}", f"# C {s:x} {common_roc:x}"]
     eff_ws = 128 if ws == 0 else ws
     hi = {s: None for s in ssrcs}           # sender's highest index
